@@ -101,7 +101,7 @@ PolyVerdict(e) ==
         \cup (IF embOK /\ simple /\ \E j \in EX : ~(vs[j].a[1] = ConventionSign(vs[j].pts) /\ vs[j].sign = ConventionSign(vs[j].pts))
               THEN {"C20.area_sign_convention"} ELSE {})
         \cup (IF embOK THEN {RelClause(vs[j].kind) : j \in {q \in rel : ~AreaRelOK(vs[q], id)}} ELSE {})
-        \cup (IF embOK /\ simple THEN {RelClause(vs[j].kind) : j \in {q \in rel : ~PerRelOK(vs[q], id)}} ELSE {})
+        \cup (IF embOK /\ simple THEN {RelClause(vs[j].kind) : j \in {q \in rel : vs[q].kind # "rev" /\ ~PerRelOK(vs[q], id)}} ELSE {})
         \cup (IF embOK /\ simple /\ \E j \in EX : ~PerimeterOK(vs[j].pts, vs[j].per, 3) THEN {"C20.perimeter"} ELSE {})
         \cup (IF embOK /\ simple /\ \E j \in J : ~(NavLaws(vs[j].nx, vs[j].pv, n) /\ NavSame(vs[j], id, n))
               THEN {"C20.next_prev"} ELSE {})
